@@ -34,6 +34,7 @@ ASSUMPTIONS = [
     "every callable name is defined once per scope (redefinitions have no documented meaning), except a property getter declared again through its own accessor (@x.getter), where the later definition is the property",
 ]
 NSHARDS = {'quick': 16, 'thorough': 16}
+RULE += (" Docstring layouts added during the build: google blocks that go on behind empty lines, bodies at the header's own indentation, an empty line under the header, headers in other spellings, left-out freeform blocks of several parts.")
 STYLES = ['google', 'freeform', 'auto']
 
 
